@@ -61,6 +61,12 @@ class C01(flatcheck.FlatCheck):
         flatcheck.Stream('with-may', lambda: flat.Knobs(max_models=2, p_unknown_event=0.0, max_history=10,
                                                         hist_kinds=(flat.TRIGGER, flat.TRIGGER, flat.MAY)),
                          monitor=monitor_without_may, nontrivial=nontrivial, quick=(16, 120), thorough=(32, 800)),
+        # callbacks that trigger further events (no queue: processed inside the callback, possibly moving the very
+        # model whose transition is in progress): the engine model is the reference (correspondence only — the
+        # acceptor of C01 speaks about one event at a time)
+        flatcheck.Stream('reentrant', lambda: flat.Knobs(max_models=2, p_unknown_event=0.0, max_history=6, p_cmds=0.35,
+                                                         p_custom_attr=0.1),
+                         nontrivial=nontrivial, quick=(16, 80), thorough=(32, 600)),
         # the asyncio class: same documented order (stage by stage) as the synchronous one
         flatcheck.Stream('async-order', lambda: flat.Knobs(max_models=2, p_unknown_event=0.0, max_history=6, p_share_cb=0.0),
                          oracle=async_oracle, nontrivial=nontrivial, quick=(16, 40), thorough=(32, 300)),
